@@ -89,6 +89,14 @@ Theorem completion_exists_reachable ntab actors sched : wf_actors ntab actors ->
   exists more, all_enabled s more /\ length more = total s /\ all_done (run s more).
 Proof. intros Hwf s. apply (completion_exists ntab (total s) s); [apply Inv_reachable; exact Hwf|reflexivity]. Qed.
 
+(* the root read-modify-write inside the root lock: between the load (PRootLocked / PRegLocked step) and the
+   store (PCommitLoaded / PRegLoaded step) the loaded root IS the current root, and the actor holds db.mu *)
+Theorem loaded_root_is_current_reachable ntab actors sched i a : wf_actors ntab actors ->
+  let s := reach ntab actors sched in
+  nth_error (s_actors s) i = Some a -> a_pc a = PCommitLoaded \/ a_pc a = PRegLoaded ->
+  a_cur a = s_root s /\ s_rlock s = Some i.
+Proof. intros Hwf s. apply (loaded_root_is_current ntab). apply Inv_reachable. exact Hwf. Qed.
+
 (* ---------- visibility ---------- *)
 Theorem visible_iff_reachable ntab actors sched i a t v : wf_system ntab actors ->
   let s := reach ntab actors sched in
@@ -126,9 +134,9 @@ Qed.
 Theorem root_step_cases_reachable ntab actors sched i : wf_system ntab actors ->
   let s := reach ntab actors sched in
   s_root (step s i) = s_root s \/
-  (exists a, nth_error (s_actors s) i = Some a /\ a_kind a = KRegistrar /\ a_pc a = PRegLocked /\
+  (exists a, nth_error (s_actors s) i = Some a /\ a_kind a = KRegistrar /\ a_pc a = PRegLoaded /\
              s_root (step s i) = s_root s ++ [mkV [] (s_nextw s) None]) \/
-  (exists a, nth_error (s_actors s) i = Some a /\ a_pc a = PRootLocked /\ commits a = true /\
+  (exists a, nth_error (s_actors s) i = Some a /\ a_pc a = PCommitLoaded /\ commits a = true /\
      length (s_root (step s i)) = length (s_root s) /\
      (forall t, ~ In t (a_locks a) -> nth_error (s_root (step s i)) t = nth_error (s_root s) t) /\
      (forall t v, In t (a_locks a) -> nth_error (s_root s) t = Some v ->
@@ -146,7 +154,7 @@ Theorem clone_is_latest_reachable ntab actors sched i a t : wf_system ntab actor
   let s := reach ntab actors sched in
   nth_error (s_actors s) i = Some a -> In t (a_locks a) ->
   (a_pc a = PRootLoaded -> nth_error (a_entries a) t = nth_error (s_root s) t) /\
-  (a_pc a = PCommitIdx \/ a_pc a = PRootLocked \/ a_pc a = PAbortBefore ->
+  (a_pc a = PCommitIdx \/ a_pc a = PRootLocked \/ a_pc a = PCommitLoaded \/ a_pc a = PAbortBefore ->
    exists v e, nth_error (s_root s) t = Some v /\ nth_error (a_entries a) t = Some e /\
                forall x, In x (tv_ids e) <-> (x = a_id a /\ In t (writes_of a)) \/ In x (tv_ids v)).
 Proof. intros Hwf s. destruct (reachable_invs ntab actors sched Hwf). apply (clone_is_latest ntab); assumption. Qed.
@@ -154,7 +162,7 @@ Proof. intros Hwf s. destruct (reachable_invs ntab actors sched Hwf). apply (clo
 Theorem sees_all_committed_reachable ntab actors sched i a j b t : wf_system ntab actors ->
   let s := reach ntab actors sched in
   nth_error (s_actors s) i = Some a -> In t (a_locks a) ->
-  a_pc a = PRootLoaded \/ a_pc a = PCommitIdx \/ a_pc a = PRootLocked \/ a_pc a = PAbortBefore ->
+  a_pc a = PRootLoaded \/ a_pc a = PCommitIdx \/ a_pc a = PRootLocked \/ a_pc a = PCommitLoaded \/ a_pc a = PAbortBefore ->
   nth_error (s_actors s) j = Some b -> committed b = true -> In t (writes_of b) ->
   exists e, nth_error (a_entries a) t = Some e /\ In (a_id b) (tv_ids e).
 Proof. intros Hwf s. destruct (reachable_invs ntab actors sched Hwf). apply (sees_all_committed ntab); assumption. Qed.
